@@ -496,6 +496,7 @@ fn main() {
         }
     }
     let rep = Reporter::new("C13", "exploration", &args);
+    let _gag = vh::StderrGag::new();
 
     // ---------------- (a) layouts ----------------
     let mut sets: Vec<Vec<Upd>> = Vec::new();
@@ -586,6 +587,54 @@ fn main() {
         }
     });
 
+    // ---------------- (a') a segment damaged AT REST, then compaction ----------------
+    // One bit of one stored segment object is flipped (every byte position of the first segment, lowest bit) before
+    // compact() runs over it. Damage must stay detectable: if recovery reported it before the compaction, recovery after
+    // the compaction must report it too, or return exactly the undamaged state - never another state.
+    let rest_layouts: Vec<Layout> = usable.iter().flat_map(|set| layouts_of(set).into_iter().filter(|l| l.segments.len() >= 2).take(1)).take(if thorough { 1500 } else { 250 }).collect();
+    let rest_cases = AtomicU64::new(0);
+    let rest_detected = AtomicU64::new(0);
+    par::par_map(&rest_layouts, |_, layout| {
+        let clean = match recover_fold(&build_store(layout)) {
+            Ok(f) => projection(&f),
+            Err(_) => return,
+        };
+        let cfg = Cfg { clock_ms: 0, ttl_ms: HOUR_MS, max_records_selected: 0, max_per_compaction: 10, passes: 1, split: 0, read_fault: 0 };
+        let first_key = format!("{PREFIX}/segments/segment-{:08}.seg", if layout.checkpoint.is_some() { 1 } else { 0 });
+        let len = build_store(layout).image_now().get(&first_key).map(|b| b.len()).unwrap_or(0);
+        for pos in 0..len {
+            let store = build_store(layout);
+            let mut img = store.image_now();
+            if let Some(b) = img.get_mut(&first_key) {
+                b[pos] ^= 1;
+            }
+            let store = VObjStore::from_image(&img);
+            rest_cases.fetch_add(1, Ordering::Relaxed);
+            let before = recover_fold(&store).map(|f| projection(&f));
+            let mut c = new_compactor(&store, &cfg, layout);
+            let outcome = run_compaction(&mut c);
+            let after = recover_fold(&store).map(|f| projection(&f));
+            if before.is_err() {
+                rest_detected.fetch_add(1, Ordering::Relaxed);
+            }
+            let bad = match (&before, &after) {
+                (_, Ok(a)) if *a == clean => false,
+                (Err(_), Err(_)) => false,
+                (Ok(b), Ok(a)) if a == b => false, // undetectable both times (a don't-care byte)
+                (Ok(_), Err(_)) => false,
+                _ => true,
+            };
+            if bad || outcome.starts_with("PANIC") {
+                rep.violation(
+                    if outcome.starts_with("PANIC") { "damaged-at-rest: compaction-panic".to_string() } else { "damaged-at-rest: compaction turned detectable damage into different data".to_string() },
+                    format!("layout {} ; bit 0 of byte {pos} of {first_key} flipped in the store ; recovery before compaction: {:?} ; compaction: {outcome} ; recovery after: {:?} ; the undamaged layout recovers to {:?}", layout.show(), before, after, clean),
+                    json!({"damaged_at_rest": true, "layout": layout_json(layout), "pos": pos}),
+                );
+                break;
+            }
+        }
+    });
+
     // ---------------- (b) compaction || flush ----------------
     let k = |key: u8, kind: Kind, time: u64| Upd { key, kind, time, replica: 1 };
     let race_layouts: Vec<(Layout, Vec<Upd>)> = {
@@ -660,6 +709,9 @@ fn main() {
         "two_pass_cases_skipped_because_a_subset_of_the_updates_merges_order_dependently": two_pass_skipped.load(Ordering::Relaxed),
         "layout_config_cases": cases.load(Ordering::Relaxed),
         "cases_where_compaction_rewrote_segments": compacted.load(Ordering::Relaxed),
+        "damaged_at_rest_cases": rest_cases.load(Ordering::Relaxed),
+        "damaged_at_rest_cases_where_recovery_detected_the_damage_before_compaction": rest_detected.load(Ordering::Relaxed),
+        "damaged_at_rest_rule": "for the first layout (>= 2 segments) of up to 250 (thorough 1500) update sets: bit 0 of every byte of the first stored segment object is flipped, compact() (all segments selected) runs, recovery before vs after: detectable damage must stay detectable or the exact undamaged state must come back",
         "race_layouts": race_layouts.len(),
         "race_interleavings_executed": race_execs,
         "race_distinct_outcomes": race_outcomes.len(),
